@@ -340,12 +340,20 @@ class _TextualFinder:
 
     def _search_in_f_string(self, f_string: str) -> Iterator[int]:
         tree = ast.parse(f_string)
+        lines = f_string.split("\n")
+
+        def to_offset(lineno: int, col: int) -> int:
+            # the string may span lines; ast columns count UTF-8 bytes
+            line = lines[lineno - 1]
+            before = sum(len(previous) + 1 for previous in lines[: lineno - 1])
+            return before + len(line.encode("utf-8")[:col].decode("utf-8"))
+
         for node in ast.walk(tree):
             if isinstance(node, ast.Name) and node.id == self.name:
-                yield node.col_offset
+                yield to_offset(node.lineno, node.col_offset)
             elif isinstance(node, ast.Attribute) and node.attr == self.name:
-                assert node.end_col_offset is not None
-                yield node.end_col_offset - len(self.name)
+                assert node.end_col_offset is not None and node.end_lineno is not None
+                yield to_offset(node.end_lineno, node.end_col_offset) - len(self.name)
 
     def _normal_search(self, source: str) -> Iterator[int]:
         current = 0
